@@ -374,13 +374,16 @@ def differential_interactive(engine, gen, n, rng, tier, result, nontrivial=None,
     distinct = cov.setdefault('_distinct', set())
     sess = Session(engine)
     recs = []
+    aborts = 0
     for _ in range(n):
         sess.new_case()
         try:
             gen(rng, tier, sess)
         except SessionAbort:
-            pass
+            aborts += 1
         recs.append((sess.lines, sess.outs))
+        if aborts >= 2:
+            break       # the implementation hangs or dies: two witnesses are enough
     sess.close()
     text = 'engine %s\n' % engine
     for i, (c, _) in enumerate(recs):
@@ -408,8 +411,9 @@ def differential_interactive(engine, gen, n, rng, tier, result, nontrivial=None,
                  'model': (mo[first] if mo and first < len(mo) else '<none>'), 'note': 'differs in the interactive run only'}
             small = c
         else:
-            small = shrink_case(engine, c, keep_prefix=keep_prefix)
-            d = compare_case(engine, small) or d
+            is_hang = '<no output' in d.get('impl', '') or d.get('impl', '').startswith(('hang', 'thread ', 'deadlock'))
+            small = shrink_case(engine, c, keep_prefix=keep_prefix, budget=25 if is_hang else 400, timeout=10 if is_hang else 40)
+            d = compare_case(engine, small, timeout=20 if is_hang else 40) or d
         viol.append({'engine': engine, 'script': small, 'diff': d, 'original_len': len(c)})
         if len(viol) >= max_report or '<no output' in d.get('impl', ''):
             break       # one hang/crash witness is enough: every further one costs a timeout
